@@ -66,6 +66,7 @@ type PropRecipe struct {
 	Conflicts     []string   `json:"conf,omitempty"`
 	Default       *string    `json:"def,omitempty"`
 	Disabled      bool       `json:"dis,omitempty"`
+	NoReason      bool       `json:"dis_noreason,omitempty"` // disabled without a reason text
 }
 
 // ObjectRecipe describes a map-based object.
@@ -278,7 +279,9 @@ func BuildObject(o *ObjectRecipe) *schema.ObjectSchema {
 	for i := range o.Props {
 		p := &o.Props[i]
 		ps := schema.NewPropertySchema(BuildType(&p.T), disp(p.Name), p.Required, p.RequiredIf, p.RequiredIfNot, p.Conflicts, p.Default, nil)
-		if p.Disabled {
+		if p.Disabled && p.NoReason {
+			ps.Disabled = true
+		} else if p.Disabled {
 			ps.Disable("disabled by recipe")
 		}
 		props[p.Name] = ps
@@ -325,6 +328,9 @@ type GenOpts struct {
 	Recursive  bool // allow references that form cycles (through optional properties)
 	NeedNonce  bool // root object gets a required string property "nonce"
 	Prefix     string
+	// NegativeBounds: integer bounds may be negative (such schemas cannot be self-described - the meta-schema
+	// wants bounds >= 0 - so only checks that never need the description use them)
+	NegativeBounds bool
 }
 
 type gen struct {
@@ -408,6 +414,7 @@ func (g *gen) object(ids []string, idx int) ObjectRecipe {
 					p.Conflicts = others
 				case 3:
 					p.Disabled = true
+					p.NoReason = g.s.Choose("g.noreason", 2) == 1
 				}
 			}
 		}
@@ -429,6 +436,9 @@ func (g *gen) defaultFor(t *TypeRecipe) *string {
 		v := int64(5)
 		if t.Min != nil {
 			v = *t.Min
+		}
+		if t.Max != nil && v > *t.Max {
+			v = *t.Max
 		}
 		return strp(fmt.Sprint(v))
 	case "float":
@@ -494,6 +504,16 @@ func (g *gen) typ(ids []string, idx int, depth int, allowObj bool) TypeRecipe {
 		case 3:
 			t.Min = i64(int64(g.s.Choose("g.imin", 10)))
 			t.Max = i64(*t.Min + int64(g.s.Choose("g.ispan", 100000)))
+		}
+		if g.o.NegativeBounds && g.s.Choose("g.ineg", 3) == 2 {
+			// shift the range below zero
+			shift := int64(20 + g.s.Choose("g.inegshift", 200000))
+			if t.Min != nil {
+				t.Min = i64(*t.Min - shift)
+			}
+			if t.Max != nil {
+				t.Max = i64(*t.Max - shift)
+			}
 		}
 		t.Units = []string{"", "", "bytes", "dur_ns", "dur_s", "chars", "percent", "custom"}[g.s.Choose("g.units", 8)]
 	case "float":
@@ -661,6 +681,11 @@ func (v *ValGen) Object(id string, extra map[string]any) map[string]any {
 	}
 	for i := range o.Props {
 		p := &o.Props[i]
+		if p.Disabled && v.Corrupt && !v.done && v.S.Choose("v.usedisabled", 3) == 2 {
+			v.done = true
+			out[p.Name] = v.Type(&p.T) // a disabled property is used: rejected
+			continue
+		}
 		if !present[p.Name] {
 			continue
 		}
@@ -888,11 +913,14 @@ func (v *ValGen) Type(t *TypeRecipe) any {
 			}
 			return []any{int64(1), "two", 3.5}
 		case 3:
-			switch s.Choose("v.anyrep", 3) {
+			switch s.Choose("v.anyrep", 4) {
 			case 1:
 				return map[string]any{"a": int(1), "b": []any{true, int8(2)}, "c": map[string]any{"d": float32(0.5)}}
 			case 2:
 				return map[any]any{"a": uint(1), int64(2): []any{int(3)}}
+			case 3:
+				// two raw keys that are one key once normalised
+				return map[any]any{int(1): "from-int", int64(1): "from-int64", "z": true}
 			}
 			return map[string]any{"a": int64(1), "b": []any{true}}
 		}
